@@ -100,7 +100,7 @@ def corrupt(b):
 
 
 def pinned(prop):
-    d = os.path.join(verif.REPLAYS, "pinned")
+    d = verif.PINNED
     out = []
     if os.path.isdir(d):
         for f in sorted(os.listdir(d)):
